@@ -56,6 +56,7 @@ structure Conn where
 structure Cfg where
   versionless : Bool
   keep : Bool
+  shut : Bool := false        -- ChannelShutdownDelay < 0: the channel state is dropped as soon as its last key goes
   deriving Repr, DecidableEq
 
 /-- preparedData of buildPreparedPollData. -/
@@ -174,11 +175,18 @@ def broadcast (s : St) (k : Key) (v : Nat) (d : Data) (prep : Prep) : St × List
       let (c', evs) := writePub cid c k v d prep
       ({ acc.1 with conns := aset cid c' acc.1.conns }, acc.2 ++ evs)) (s, [])
 
+/-- scheduleShutdown after the item index became empty: with an immediate shutdown delay the channel state
+(entries, epoch, synthetic version counter) and the keyed hub are dropped. -/
+def maybeShutdown (s : St) : St :=
+  if s.cfg.shut && s.chanExists && s.entries.isEmpty then
+    { s with chanExists := false, epoch := "", counter := 0, hub := [] }
+  else s
+
 /-- hub.removeSubscriber + SharedPollManager.untrack when the key has no subscriber left. -/
 def hubRemove (s : St) (k : Key) (cid : ConnId) : St :=
   let subs := (subscribersOf s k).filter (· ≠ cid)
   if subs.isEmpty then
-    { s with hub := aerase k s.hub, entries := if s.chanExists then aerase k s.entries else s.entries }
+    maybeShutdown { s with hub := aerase k s.hub, entries := if s.chanExists then aerase k s.entries else s.entries }
   else { s with hub := aset k subs s.hub }
 
 /-- cleanupKeyed: drop every tracked key of the connection. -/
@@ -396,11 +404,13 @@ def trackCallback (s : St) : St × List Ev :=
     | none => (s1, [])
     | some c =>
       if c.subscribed && c.gen == p.gen then track s1 p.cid p.key p.version
-      else ({ s1 with chanExists := true }, [Ev.err p.cid 103])
+      else (maybeShutdown { s1 with chanExists := true }, [Ev.err p.cid 103])
 
 /-- SharedPollRevokeKeys(channel, [k], all users). -/
 def revoke (s : St) (k : Key) : St × List Ev :=
-  if !s.chanExists then (s, []) else removeKey s k
+  if !s.chanExists then (s, []) else
+  let (s1, evs) := removeKey s k
+  (maybeShutdown s1, evs)
 
 inductive Op where
   | sub (c : ConnId) (delta : Bool)
